@@ -254,6 +254,9 @@ def Drops (c : Composition) : CompOp → Interval → Prop
   | .pushSelection t, s => s.intersect t = true
   | .clear, _ => True
 
+instance (c : Composition) (op : CompOp) (s : Interval) : Decidable (Drops c op s) := by
+  cases op <;> unfold Drops <;> infer_instance
+
 /-- the operation edits inside the range of `s` (specification; differs from `Drops` only for
     `replace`, which as coded keeps a selection whose symbol it overwrites) -/
 def EditsInside (c : Composition) : CompOp → Interval → Prop
@@ -730,5 +733,508 @@ theorem inv_run (ops : List CompOp) : ∀ c c', CompInv c → ValidRun c ops →
     · next c1 h1 => exact ih c1 c' (inv_preserved c op c1 hc hv.1 h1) (hv.2 c1 h1) h
     · cases h
     · cases h
+
+/-! ## One character per symbol -/
+
+/-- `TextInv` is preserved; a pushed selection must itself be well sized -/
+theorem textInv_preserved (c : Composition) (op : CompOp) (c' : Composition) (hc : TextInv c)
+    (hv : ∀ t, op = .pushSelection t → t.text.length = t.stop - t.start)
+    (hne : ∀ s ∈ c.selections, s.start ≤ s.stop)
+    (h : c.apply op = .ok c') : TextInv c' := by
+  intro t ht
+  rcases (selections_after c op c' h t).mp ht with ⟨s, hs, hd, rfl⟩ | rfl
+  · have := hc s hs
+    have := hne s hs
+    rw [(shift_text c op s).1]
+    cases op <;> simp only [shift, Drops] at hd ⊢ <;> (try split) <;>
+      (try simp only [Interval.shiftUp, Interval.shiftDown]) <;> omega
+  · exact hv t rfl
+
+/-! ## No panic under the invariant and the asserted preconditions -/
+
+/-- under `CompInv` and the documented index preconditions every operation succeeds: in
+    particular the `end -= n` underflow (site `sub-overflow`) is unreachable -/
+theorem no_panic (c : Composition) (op : CompOp) (hc : CompInv c) (ha : Asserted c op) :
+    ∃ c', c.apply op = .ok c' := by
+  obtain ⟨h1, h2, h3, h4, h5, h6⟩ := hc
+  cases op with
+  | insert i x => exact ⟨_, insert_ok.mpr ⟨h1, ha, rfl⟩⟩
+  | push x => exact ⟨_, push_ok.mpr (insert_ok.mpr ⟨h1, Nat.le_refl _, rfl⟩)⟩
+  | remove i =>
+    refine ⟨_, remove_ok.mpr ⟨h1, ha, ?_, rfl⟩⟩
+    intro s hs _ _
+    have := h3 s hs
+    omega
+  | removeFront n =>
+    refine ⟨_, removeFront_ok.mpr ⟨h1, ha, ?_, rfl⟩⟩
+    intro s hs _
+    have := h3 s hs
+    omega
+  | replace i x => exact ⟨_, replace_ok.mpr ⟨h1, ha, rfl⟩⟩
+  | setGap i g => exact ⟨_, setGap_ok.mpr ⟨h1, ha.1, ha.2, rfl⟩⟩
+  | pushSelection t => exact ⟨_, pushSelection_ok.mpr ⟨h1, ha, rfl⟩⟩
+  | clear => exact ⟨_, rfl⟩
+
+/-! ## Survival along operation lists -/
+
+/-- where a selection ends up after a list of operations, `none` as soon as one of them edits inside it -/
+def track : Composition → List CompOp → Interval → Option Interval
+  | _, [], s => some s
+  | c, op :: ops, s =>
+    match c.apply op with
+    | .ok c1 => if Drops c op s then none else track c1 ops (shift c op s)
+    | _ => none
+
+/-- **C04 along histories (component level)**: a selection that no operation of the list edits
+    inside (`track = some t`) is present at the end, at its tracked position, with its text. -/
+theorem selection_survives_run (ops : List CompOp) :
+    ∀ (c c' : Composition) (s t : Interval), s ∈ c.selections → c.run ops = .ok c' → track c ops s = some t →
+      t ∈ c'.selections ∧ t.text = s.text := by
+  induction ops with
+  | nil =>
+    intro c c' s t hs h ht
+    simp only [Composition.run] at h; cases h
+    simp only [track] at ht; cases ht
+    exact ⟨hs, rfl⟩
+  | cons op ops ih =>
+    intro c c' s t hs h ht
+    simp only [Composition.run] at h
+    simp only [track] at ht
+    split at h
+    · next c1 h1 =>
+      rw [h1] at ht
+      simp only at ht
+      split at ht
+      · cases ht
+      · next hd =>
+        have hmem : shift c op s ∈ c1.selections := (selections_after c op c1 h1 _).mpr (.inl ⟨s, hs, hd, rfl⟩)
+        obtain ⟨r1, r2⟩ := ih c1 c' _ t hmem h ht
+        exact ⟨r1, by rw [r2, (shift_text c op s).1]⟩
+    · cases h
+    · cases h
+
+/-! ## Break points: which operations can clear or create one -/
+
+/-- where the gap `j` is after the operation; `none` = the operation touches (may reset) that gap -/
+def gapShift (c : Composition) : CompOp → Nat → Option Nat
+  | .insert i _, j => if j = i then none else if j < i then some j else some (j + 1)
+  | .push _, j => if j = c.symbols.length then none else if j < c.symbols.length then some j else some (j + 1)
+  | .remove i, j => if j = i then none else if j < i then some j else if j = 1 then none else some (j - 1)
+  | .removeFront n, j => if j ≤ n then none else some (j - n)
+  | .replace i _, j => if j = i then none else some j
+  | .setGap i _, j => if j = i then none else some j
+  | .pushSelection t, j => if t.start < j ∧ j < t.stop then none else some j
+  | .clear, _ => none
+
+/-- **A user break (or glue) stays**, at the shifted position, across every operation that does
+    not touch that very gap.  Needs only that gap 0 is the `Begin` gap. -/
+theorem gap_survives (c : Composition) (op : CompOp) (c' : Composition) (hc : CompInv c)
+    (h : c.apply op = .ok c') (j j' : Nat) (g : Gap) (hg : c.gaps[j]? = some g) (hgb : g ≠ .begin)
+    (hj : gapShift c op j = some j') : c'.gaps[j']? = some g := by
+  have hj0 : j ≠ 0 := fun e => hgb ((hc.gap_begin j g hg).mpr e)
+  have hlt : j < c.gaps.length := by
+    rcases Nat.lt_or_ge j c.gaps.length with h' | h'
+    · exact h'
+    · rw [List.getElem?_eq_none h'] at hg; cases hg
+  have hl := hc.len_eq
+  cases op with
+  | insert i x => rw [gaps_after_insert h j']; simp only [gapShift] at hj; grind
+  | push x =>
+    rw [gaps_after_insert (push_ok.mp h) j']; simp only [gapShift] at hj; grind
+  | remove i => rw [gaps_after_remove h j']; simp only [gapShift] at hj; grind
+  | removeFront n => rw [gaps_after_removeFront h j']; simp only [gapShift] at hj; grind
+  | replace i x => rw [gaps_after_replace h j']; simp only [gapShift] at hj; grind
+  | setGap i g' => rw [gaps_after_setGap h j']; simp only [gapShift] at hj; grind
+  | pushSelection t => rw [gaps_after_pushSelection h j']; simp only [gapShift] at hj; grind
+  | clear => simp [gapShift] at hj
+
+/-- `break_survives`: the instance of `gap_survives` the property talks about -/
+theorem break_survives (c : Composition) (op : CompOp) (c' : Composition) (hc : CompInv c)
+    (h : c.apply op = .ok c') (j j' : Nat) (hg : c.gaps[j]? = some .brk)
+    (hj : gapShift c op j = some j') : c'.gaps[j']? = some .brk :=
+  gap_survives c op c' hc h j j' .brk hg (by decide) hj
+
+/-- **No operation creates a break unasked**: a break after the operation is the image of a break
+    before it, or was just set by `set_gap(j', Break)`. -/
+theorem break_origin (c : Composition) (op : CompOp) (c' : Composition) (hc : CompInv c)
+    (h : c.apply op = .ok c') (j' : Nat) (hg : c'.gaps[j']? = some .brk) :
+    (∃ x, op = .setGap j' x ∧ x = .brk) ∨ (∃ j, c.gaps[j]? = some .brk ∧ gapShift c op j = some j') := by
+  have hl := hc.len_eq
+  cases op with
+  | insert i x =>
+    rw [gaps_after_insert h j'] at hg
+    refine .inr ⟨if j' < i then j' else j' - 1, ?_⟩
+    simp only [gapShift]; grind
+  | push x =>
+    rw [gaps_after_insert (push_ok.mp h) j'] at hg
+    refine .inr ⟨if j' < c.symbols.length then j' else j' - 1, ?_⟩
+    simp only [gapShift]; grind
+  | remove i =>
+    rw [gaps_after_remove h j'] at hg
+    refine .inr ⟨if j' < i then j' else j' + 1, ?_⟩
+    simp only [gapShift]; grind
+  | removeFront n =>
+    rw [gaps_after_removeFront h j'] at hg
+    refine .inr ⟨n + j', ?_⟩
+    simp only [gapShift]; grind
+  | replace i x =>
+    rw [gaps_after_replace h j'] at hg
+    refine .inr ⟨j', ?_⟩
+    have := hc.gap_begin j' .brk
+    simp only [gapShift]; grind
+  | setGap i g' =>
+    rw [gaps_after_setGap h j'] at hg
+    by_cases hji : j' = i ∧ i ≠ 0
+    · left; refine ⟨g', ?_, ?_⟩ <;> grind
+    · right; refine ⟨j', ?_⟩
+      simp only [gapShift]
+      have := hc.gap_begin j' .brk
+      grind
+  | pushSelection t =>
+    rw [gaps_after_pushSelection h j'] at hg
+    refine .inr ⟨j', ?_⟩
+    simp only [gapShift]; grind
+  | clear =>
+    simp only [Composition.apply, Composition.clear] at h; cases h
+    simp at hg
+
+/-- a break is never strictly inside a selection (field `sel_no_break` of the invariant, restated):
+    setting a break inside a selection drops the selection, choosing a range resets its inner gaps -/
+theorem no_break_inside_selection {c : Composition} (hc : CompInv c) (s : Interval) (hs : s ∈ c.selections)
+    (j : Nat) (h1 : s.start < j) (h2 : j < s.stop) : c.gaps[j]? ≠ some .brk :=
+  hc.sel_no_break s hs j h1 h2
+
+/-! ## Selections cover syllables only (needed by the conversion engines, C03) -/
+
+/-- every symbol of `a..b` is a syllable -/
+def AllSyl (c : Composition) (a b : Nat) : Prop := ∀ j, a ≤ j → j < b → ∃ k, c.symbols[j]? = some (Sym.syl k)
+
+/-- every selection covers syllables only -/
+def SylInv (c : Composition) : Prop := ∀ s ∈ c.selections, AllSyl c s.start s.stop
+
+/-- the preconditions under which `SylInv` is kept: a chosen range consists of syllables, and
+    `replace` (which as coded keeps a selection covering the replaced symbol) does not put a
+    character under a selection -/
+def ValidOpSyl (c : Composition) : CompOp → Prop
+  | .pushSelection t => AllSyl c t.start t.stop
+  | .replace i x => (∃ k, x = Sym.syl k) ∨ ∀ s ∈ c.selections, ¬ (s.start ≤ i ∧ i < s.stop)
+  | _ => True
+
+theorem sylInv_preserved (c : Composition) (op : CompOp) (c' : Composition) (hc : CompInv c) (hs : SylInv c)
+    (hv : ValidOpSyl c op) (h : c.apply op = .ok c') : SylInv c' := by
+  intro t ht j hj1 hj2
+  have hsel := (selections_after c op c' h t).mp ht
+  cases op with
+  | insert i x =>
+    obtain ⟨s, hs', hd, rfl⟩ | hh := hsel
+    · rw [(insert_symbols h).2]
+      have := (insert_symbols h).1
+      have := hc.sel_in s hs'
+      have a1 := hs s hs' j
+      have a2 := hs s hs' (j - 1)
+      simp only [shift, Drops] at hd hj1 hj2
+      grind [Interval.shiftUp]
+    · cases hh
+  | push x =>
+    obtain ⟨s, hs', hd, rfl⟩ | hh := hsel
+    · rw [push_symbols h]
+      have := hc.sel_in s hs'
+      have := hc.sel_nonempty s hs'
+      have a1 := hs s hs' j
+      simp only [shift, Drops] at hd hj1 hj2
+      grind [Interval.shiftUp]
+    · cases hh
+  | remove i =>
+    obtain ⟨s, hs', hd, rfl⟩ | hh := hsel
+    · rw [(remove_symbols h).2]
+      have := (remove_symbols h).1
+      have := hc.sel_in s hs'
+      have := hc.sel_nonempty s hs'
+      have a1 := hs s hs' j
+      have a2 := hs s hs' (j + 1)
+      simp only [shift, Drops] at hd hj1 hj2
+      grind [Interval.shiftDown]
+    · cases hh
+  | removeFront n =>
+    obtain ⟨s, hs', hd, rfl⟩ | hh := hsel
+    · rw [(removeFront_symbols h).2]
+      have := hc.sel_in s hs'
+      have := hc.sel_nonempty s hs'
+      have a1 := hs s hs' (n + j)
+      simp only [shift, Drops, Interval.shiftDown] at hd hj1 hj2
+      grind
+    · cases hh
+  | replace i x =>
+    obtain ⟨s, hs', hd, hts⟩ | hh := hsel
+    · simp only [shift] at hts; subst hts
+      rw [(replace_symbols h).2]
+      have := (replace_symbols h).1
+      have a1 := hs t hs' j hj1 hj2
+      simp only [ValidOpSyl] at hv
+      rcases hv with ⟨k, rfl⟩ | hv
+      · grind
+      · have := hv t hs'
+        grind
+    · cases hh
+  | setGap i g =>
+    obtain ⟨s, hs', hd, hts⟩ | hh := hsel
+    · simp only [shift] at hts; subst hts
+      rw [setGap_symbols h]; exact hs t hs' j hj1 hj2
+    · cases hh
+  | pushSelection iv =>
+    rw [pushSelection_symbols h]
+    obtain ⟨s, hs', hd, hts⟩ | hh := hsel
+    · simp only [shift] at hts; subst hts
+      exact hs t hs' j hj1 hj2
+    · cases hh
+      exact hv j hj1 hj2
+  | clear =>
+    simp only [Composition.apply, Composition.clear] at h; cases h
+    cases ht
+
+/-! ## The order of `selections` is not observable under the invariant -/
+
+theorem pairwise_mem {α : Type} {R : α → α → Prop} {l : List α} (h : l.Pairwise R) {a b : α}
+    (ha : a ∈ l) (hb : b ∈ l) : a = b ∨ R a b ∨ R b a := by
+  induction h with
+  | nil => cases ha
+  | cons hx _ ih =>
+    rcases List.mem_cons.mp ha with rfl | ha' <;> rcases List.mem_cons.mp hb with rfl | hb'
+    · exact .inl rfl
+    · exact .inr (.inl (hx _ hb'))
+    · exact .inr (.inr (hx _ ha'))
+    · exact ih ha' hb'
+
+/-- distinct selections have distinct starts (ranges are non-empty and disjoint): a selection is
+    determined by where it begins -/
+theorem sel_start_injective {c : Composition} (hc : CompInv c) {a b : Interval}
+    (ha : a ∈ c.selections) (hb : b ∈ c.selections) (h : a.start = b.start) : a = b := by
+  rcases pairwise_mem hc.sel_disj ha hb with e | d | d
+  · exact e
+  all_goals
+    have := hc.sel_nonempty a ha
+    have := hc.sel_nonempty b hb
+    unfold Disj at d
+    omega
+
+/-- any two selections are equal or non-intersecting (the form the conversion model uses) -/
+theorem sel_pairwise_not_intersect {c : Composition} (hc : CompInv c) :
+    c.selections.Pairwise (fun a b => a.intersect b = false) :=
+  hc.sel_disj.imp (fun h => disj_intersect_false h)
+
+/-- `selections_order_irrelevant`: a first-match lookup that at most one element of the list can
+    satisfy gives the same answer on every permutation of the list.  With `sel_start_injective`
+    (look-up by start / by range) this is why the model may replace the `swap_remove` loop by
+    `filter` and why the correspondence compares selections as sorted lists. -/
+theorem selections_order_irrelevant {l l' : List Interval} (hp : l.Perm l') (p : Interval → Bool)
+    (huniq : ∀ a ∈ l, ∀ b ∈ l, p a = true → p b = true → a = b) : l.find? p = l'.find? p := by
+  cases h1 : l.find? p with
+  | none =>
+    symm
+    rw [List.find?_eq_none] at h1 ⊢
+    intro x hx
+    exact h1 x (hp.mem_iff.mpr hx)
+  | some a =>
+    have ha := List.mem_of_find?_eq_some h1
+    have hpa := List.find?_some h1
+    cases h2 : l'.find? p with
+    | none =>
+      rw [List.find?_eq_none] at h2
+      exact absurd hpa (h2 a (hp.mem_iff.mp ha))
+    | some b =>
+      have hb := hp.mem_iff.mpr (List.mem_of_find?_eq_some h2)
+      have hpb := List.find?_some h2
+      rw [huniq a ha b hb hpa hpb]
+
+/-! ## Through the `CompositionEditor`: every method is zero or one `Composition` call -/
+
+/-- the `Composition` call a `CompositionEditor` method makes on `inner` (from the pre-state) -/
+def compOps (e : CompEditor) : CedOp → List CompOp
+  | .clear => [.clear]
+  | .removeFront n => [.removeFront n]
+  | .removeAfterCursor => [.remove e.cursor]
+  | .removeBeforeCursor => if e.cursor = 0 then [] else [.remove (e.cursor - 1)]
+  | .insert x => [.insert e.cursor x]
+  | .insertGlue => if e.isEob then [] else [.setGap e.cursor .glue]
+  | .insertBreak => if e.isEob then [] else [.setGap e.cursor .brk]
+  | .replace x => [.replace e.cursor x]
+  | .select iv => [.pushSelection iv]
+  | _ => []
+
+theorem withInner_ok {r : Outcome Composition} {f : Composition → CompEditor} {e' : CompEditor}
+    (h : CompEditor.withInner r f = .ok e') : ∃ c, r = .ok c ∧ e' = f c := by
+  unfold CompEditor.withInner at h
+  split at h
+  · next c => cases h; exact ⟨c, rfl, rfl⟩
+  · cases h
+  · cases h
+
+theorem run_single {c : Composition} {op : CompOp} {c' : Composition} (h : c.apply op = .ok c') :
+    c.run [op] = .ok c' := by
+  simp [Composition.run, h]
+
+/-- the inner composition after a `CompositionEditor` method is the result of `compOps` -/
+theorem ced_inner (e : CompEditor) (op : CedOp) (e' : CompEditor) (h : e.apply op = .ok e') :
+    e.inner.run (compOps e op) = .ok e'.inner := by
+  cases op with
+  | pushCursor => cases h; rfl
+  | popCursor =>
+    simp only [CompEditor.apply, CompEditor.popCursor] at h; cases h
+    simp only [compOps, Composition.run]; split <;> rfl
+  | clampCursor =>
+    simp only [CompEditor.apply, CompEditor.clampCursor] at h; cases h
+    simp only [compOps, Composition.run]; split <;> rfl
+  | moveCursor n => cases h; rfl
+  | clear => cases h; rfl
+  | removeFront n =>
+    obtain ⟨c, hc, rfl⟩ := withInner_ok h
+    exact run_single hc
+  | removeAfterCursor =>
+    obtain ⟨c, hc, rfl⟩ := withInner_ok h
+    exact run_single hc
+  | removeBeforeCursor =>
+    simp only [CompEditor.apply, CompEditor.removeBeforeCursor] at h
+    simp only [compOps]
+    split at h
+    · next h0 => cases h; simp [h0, Composition.run]
+    · next h0 =>
+      obtain ⟨c, hc, rfl⟩ := withInner_ok h
+      rw [if_neg h0]
+      exact run_single hc
+  | moveToEnd => cases h; rfl
+  | moveToBeginning => cases h; rfl
+  | moveLeft => cases h; rfl
+  | moveRight => cases h; rfl
+  | insert x =>
+    obtain ⟨c, hc, rfl⟩ := withInner_ok h
+    exact run_single hc
+  | insertGlue =>
+    simp only [CompEditor.apply, CompEditor.insertGlue, CompEditor.insertGap] at h
+    simp only [compOps]
+    split at h
+    · next h0 => cases h; simp [h0, Composition.run]
+    · next h0 =>
+      obtain ⟨c, hc, rfl⟩ := withInner_ok h
+      rw [if_neg h0]
+      exact run_single hc
+  | insertBreak =>
+    simp only [CompEditor.apply, CompEditor.insertBreak, CompEditor.insertGap] at h
+    simp only [compOps]
+    split at h
+    · next h0 => cases h; simp [h0, Composition.run]
+    · next h0 =>
+      obtain ⟨c, hc, rfl⟩ := withInner_ok h
+      rw [if_neg h0]
+      exact run_single hc
+  | replace x =>
+    obtain ⟨c, hc, rfl⟩ := withInner_ok h
+    exact run_single hc
+  | select iv =>
+    simp only [CompEditor.apply, CompEditor.select] at h
+    split at h
+    · cases h
+    · obtain ⟨c, hc, rfl⟩ := withInner_ok h
+      exact run_single hc
+
+/-- `CompInv` of the inner composition is kept by every `CompositionEditor` method, given that
+    `select` is called with a valid selection -/
+theorem ced_inv_preserved (e : CompEditor) (op : CedOp) (e' : CompEditor) (hc : CompInv e.inner)
+    (hv : ∀ iv, op = .select iv → ValidSelection e.inner iv) (h : e.apply op = .ok e') : CompInv e'.inner := by
+  refine inv_run (compOps e op) e.inner e'.inner hc ?_ (ced_inner e op e' h)
+  cases op <;> simp only [compOps] <;> (try split) <;> simp [ValidRun, ValidOp]
+  exact hv _ rfl
+
+/-- a selection tracked through the `Composition` call of one `CompositionEditor` method is
+    present afterwards with its text (cursor movement, cursor stack: nothing changes at all) -/
+theorem ced_selection_survives (e : CompEditor) (op : CedOp) (e' : CompEditor) (h : e.apply op = .ok e')
+    (s t : Interval) (hs : s ∈ e.inner.selections) (ht : track e.inner (compOps e op) s = some t) :
+    t ∈ e'.inner.selections ∧ t.text = s.text :=
+  selection_survives_run (compOps e op) e.inner e'.inner s t hs (ced_inner e op e' h) ht
+
+/-- tracking through a list of `CompositionEditor` methods -/
+def cedTrack : CompEditor → List CedOp → Interval → Option Interval
+  | _, [], s => some s
+  | e, op :: ops, s =>
+    match e.apply op with
+    | .ok e1 => (track e.inner (compOps e op) s).bind (cedTrack e1 ops)
+    | _ => none
+
+/-- **C04 for histories of `CompositionEditor` calls** (typing/deleting elsewhere, cursor moves,
+    cursor save/restore, breaks elsewhere, other choices, auto-commit of earlier text): a choice that
+    no call edits inside is present at the end, at its tracked position, with its text. -/
+theorem ced_selection_survives_run (ops : List CedOp) :
+    ∀ (e e' : CompEditor) (s t : Interval), s ∈ e.inner.selections → e.run ops = .ok e' →
+      cedTrack e ops s = some t → t ∈ e'.inner.selections ∧ t.text = s.text := by
+  induction ops with
+  | nil =>
+    intro e e' s t hs h ht
+    simp only [CompEditor.run] at h; cases h
+    simp only [cedTrack] at ht; cases ht
+    exact ⟨hs, rfl⟩
+  | cons op ops ih =>
+    intro e e' s t hs h ht
+    simp only [CompEditor.run] at h
+    simp only [cedTrack] at ht
+    split at h
+    · next e1 h1 =>
+      rw [h1] at ht
+      simp only at ht
+      cases hm : track e.inner (compOps e op) s with
+      | none => rw [hm] at ht; cases ht
+      | some m =>
+        rw [hm] at ht
+        obtain ⟨r1, r2⟩ := ced_selection_survives e op e1 h1 s m hs hm
+        obtain ⟨r3, r4⟩ := ih e1 e' m t r1 h ht
+        exact ⟨r3, by rw [r4, r2]⟩
+    · cases h
+    · cases h
+
+/-! ## Non-vacuity: the hypotheses of the theorems above are satisfiable by non-trivial states -/
+
+/-- `[ㄘㄜˋ, ㄕˋ, 'a', ㄘㄜˋ]`, a break before the last symbol, "測試" chosen for `0..2` -/
+def demo : Composition :=
+  { symbols := [.syl 0x2A48, .syl 0x1404, .chr 97, .syl 0x2A48]
+    gaps := [.begin, .normal, .normal, .brk]
+    selections := [⟨0, 2, true, [0x6E2C, 0x8A66]⟩] }
+
+theorem demo_inv : CompInv demo := by
+  refine ⟨rfl, ?_, ?_, ?_, ?_, ?_⟩
+  · intro j g hj
+    match j with
+    | 0 => simp [demo] at hj; simp [← hj]
+    | 1 => simp [demo] at hj; simp [← hj]
+    | 2 => simp [demo] at hj; simp [← hj]
+    | 3 => simp [demo] at hj; simp [← hj]
+    | j + 4 => simp [demo] at hj
+  · simp [demo]
+  · simp [demo]
+  · simp [demo]
+  · intro s hs j h1 h2
+    simp [demo] at hs
+    subst hs
+    have : j = 1 := by simp at h1 h2; omega
+    subst this
+    simp [demo]
+
+/-- typing before the choice moves it by one and keeps it; the break moves along -/
+example : ∃ c', demo.apply (.insert 0 (.chr 98)) = .ok c' ∧
+    (⟨1, 3, true, [0x6E2C, 0x8A66]⟩ : Interval) ∈ c'.selections ∧ c'.gaps[4]? = some .brk := by
+  obtain ⟨c', h⟩ := no_panic demo (.insert 0 (.chr 98)) demo_inv (by simp [Asserted])
+  refine ⟨c', h, ?_, ?_⟩
+  · have := selection_survives demo (.insert 0 (.chr 98)) ⟨0, 2, true, [0x6E2C, 0x8A66]⟩ (by simp [demo])
+      (by simp [EditsInside, Drops]) c' h
+    simpa [shift, Interval.shiftUp] using this
+  · exact break_survives demo _ c' demo_inv h 3 4 (by simp [demo]) (by simp [gapShift])
+
+/-- a valid, overlapping new choice replaces the old one and nothing else -/
+example : ∃ c', demo.apply (.pushSelection ⟨1, 2, true, [0x8A66]⟩) = .ok c' ∧ CompInv c' ∧
+    c'.selections = [⟨1, 2, true, [0x8A66]⟩] := by
+  refine ⟨_, rfl, inv_preserved demo (.pushSelection ⟨1, 2, true, [0x8A66]⟩) _ demo_inv
+    (by simp [ValidOp, ValidSelection, demo]) rfl, ?_⟩
+  simp [demo, Interval.intersect, Interval.intersectRange]
+
+/-- auto-commit of earlier text: `remove_front 2` cuts the choice, `remove_front 0` keeps it -/
+example : track demo [.removeFront 0, .setGap 2 .glue, .push (.chr 99)] ⟨0, 2, true, [0x6E2C, 0x8A66]⟩
+    = some ⟨0, 2, true, [0x6E2C, 0x8A66]⟩ := by decide
 
 end Chewing.C04
